@@ -205,6 +205,11 @@ def iter_module_doctestables(module):
                         item = subval.__func__
                     else:
                         item = subval
+                    # A class-private name (__name) is stored under a
+                    # mangled key (_Class__name), report it as it is written
+                    mangle_prefix = '_' + val.__name__.lstrip('_') + '__'
+                    if subkey.startswith(mangle_prefix) and not subkey.endswith('__'):
+                        subkey = subkey[len(mangle_prefix) - 2:]
                     yield key + '.' + subkey, item
 
 
